@@ -141,6 +141,7 @@ class Extractor:
         self.used_loops = set()
         self.used_hints = set()
         self.vacuity_probes = []
+        self.optional_missing = set()  # quals of "optional" items absent from this tree
 
     # -- source access
     def load(self, rel):
@@ -226,7 +227,21 @@ class Extractor:
             raise Undecided("expected one fn in extracted text of %s" % qual)
         it = fns[0]
         if it.body_open is None:
-            return ot  # trait method declaration
+            # trait method declaration: only a contract can be spliced, before the terminating `;`
+            contract = self.sidecar.contracts.get(qual)
+            if contract is None:
+                return ot
+            self.used_contracts.add(qual)
+            retname, ctext = contract
+            sig = rs.fn_signature_parts(masked, it)
+            edits = []
+            if sig["ret_start"] is not None:
+                rt = ot.text[sig["ret_start"]:sig["ret_end"]]
+                edits.append((sig["ret_start"], sig["ret_end"], "(%s: %s)" % (retname, rt)))
+            semi = it.end - 1
+            edits.append((semi, semi, "\n" + ctext.rstrip().rstrip(",") + "\n"))
+            self.transforms.add("T5")
+            return ot.apply(edits)
         sig = rs.fn_signature_parts(masked, it)
         edits = []
         contract = self.sidecar.contracts.get(qual)
@@ -316,13 +331,18 @@ class Extractor:
                     raise Undecided("lost anchor: container `%s` of `%s` in %s: %d matches" % (csel, sel, rel, len(cs)))
                 within = cs[0]
             found = self.find(rel, sel, within=within)
+            if not found and ent.get("optional"):
+                # "optional": true -- item that exists only in some revisions of the tree (e.g. a helper introduced by a
+                # fix); sidecar directives for it are then not required to be placed
+                self.optional_missing.add(ent.get("qual") or sel.split(" ", 1)[-1])
+                continue
             if not found:
                 raise Undecided("lost anchor: item `%s` not found in %s" % (sel, rel))
             ent_rewrites = rewrites + ent.get("rewrites", [])
-            if sel.startswith("impl") and "fns" in ent:
+            if (sel.startswith("impl") or sel.startswith("trait ")) and "fns" in ent:
                 header = ent.get("as")
                 impl0 = found[0]
-                qual_t = ent.get("qual") or rs.impl_self_type(impl0.name)
+                qual_t = ent.get("qual") or (impl0.name if impl0.kind == "trait" else rs.impl_self_type(impl0.name))
                 if header:
                     self.transforms.add("T12")
                     # optional "impl_prelude": associated items the fns need (e.g. `type Error = Error;` of a TryFrom impl)
@@ -339,6 +359,8 @@ class Extractor:
                     f = cands[0][1]
                     qual = "%s::%s" % (qual_t, ent.get("rename", {}).get(fname, fname))
                     out = out + self._emit_fn(txt, fi, rel, f, qual, strip_async, ent_rewrites, ent, indent="    ")
+                    hdr_t = rs.impl_self_type(rs.norm_ws(header.split("{")[0])) if header else (impl0.name if impl0.kind == "trait" else rs.impl_self_type(impl0.name))
+                    self.functions[-1]["verus_name"] = "%s::%s" % (hdr_t, fname)
                 out = out + OText.synthetic("}\n")
             else:
                 if len(found) != 1:
@@ -404,7 +426,7 @@ class Extractor:
         parts.append(OText.synthetic("\n// ---- sidecar postlude\n" + self.sidecar.postlude + tail + "\n} // verus!\nfn main() {}\n"))
         # all sidecar directives must have been used
         for q in self.sidecar.contracts:
-            if q not in self.used_contracts:
+            if q not in self.used_contracts and q not in self.optional_missing:
                 raise Undecided("lost anchor: contract for `%s` has no extracted function" % q)
         for k in self.sidecar.loops:
             if k not in self.used_loops:
